@@ -246,7 +246,7 @@ def as_enum(o: Union[AnyStr, N],
 
 def as_datetime_v1(o: Union[int, float, datetime],
                    __from_timestamp: Callable[[float, tzinfo], datetime],
-                   __tz=None):
+                   __tz=timezone.utc):
     """
     V1: Attempt to convert an object `o` to a :class:`datetime` object using the
     below logic.
